@@ -2,12 +2,12 @@
 //! All invariants are evaluated on the projection of released key tuples onto the key columns
 //! that have no publicly declared value set.
 use crate::budget;
-use crate::engine::{DrawMode, DrawPlan, ResultSet};
+use simcommon::engine::{DrawMode, DrawPlan, ResultSet};
 use crate::ir;
 use crate::oracle::*;
 use crate::owners;
 use crate::pipeline;
-use crate::scenario::{Scenario, TableSpec};
+use simcommon::scenario::{Scenario, TableSpec};
 use serde_json::json;
 use std::collections::{BTreeMap, BTreeSet};
 
